@@ -2033,6 +2033,12 @@ class QuicConnection:
 
         # assign new CID if we retired the active one
         if change_cid:
+            if not self._peer_cid_available:
+                raise QuicConnectionError(
+                    error_code=QuicErrorCode.PROTOCOL_VIOLATION,
+                    frame_type=frame_type,
+                    reason_phrase="Retire Prior To leaves no usable connection ID",
+                )
             self._consume_peer_cid()
 
         # check number of active connection IDs, including the selected one
